@@ -26,7 +26,8 @@ pub struct Case {
     pub scn: Scn,
     /// 0 = mutation program, 1 = prover run on (q, state_q), 2 = proof replayed from another point,
     /// 3 = proof of another committed polynomial, 4 = batch proof list reshaped,
-    /// 5 = scheme-specific forgery built with the library's prover (falls back to 0 where there is none)
+    /// 5 = scheme-specific forgery built with the library's prover (falls back to 0 where there is none),
+    /// 6 = mutation program applied to one proof inside an otherwise honest multi-label batch
     pub mode: u8,
     pub ops: Vec<OpRaw>,
     pub sel: u64,
@@ -35,7 +36,7 @@ pub struct Case {
 pub fn case() -> impl Strategy<Value = Case> {
     (
         scn(4),
-        prop_oneof![6 => Just(0u8), 2 => Just(1u8), 1 => Just(2u8), 1 => Just(3u8), 2 => Just(4u8), 2 => Just(5u8)],
+        prop_oneof![6 => Just(0u8), 2 => Just(1u8), 1 => Just(2u8), 1 => Just(3u8), 2 => Just(4u8), 2 => Just(5u8), 3 => Just(6u8)],
         proptest::collection::vec(op_raw(), 1..=3),
         any::<u64>(),
     )
@@ -60,7 +61,7 @@ pub fn check_trait<S: Attack>(c: &Case, ctx: &mut CaseCtx) -> Result<(), Failure
     // Entry point the adversarial proof is presented to: the single-point verifier, or (one case in
     // three) the batch verifier, as a one-label query set with a one-element proof list. The batch
     // verifiers group a label's polynomials in label order, so the proof is made in that order.
-    let via_batch = (sel >> 4) % 3 == 0 && c.mode != 4;
+    let via_batch = (sel >> 4) % 3 == 0 && c.mode != 4 && c.mode != 6;
     let order = if via_batch {
         let mut o = g.polys.clone();
         o.sort_by_key(|i| sess.polys[*i].label().clone());
@@ -219,6 +220,60 @@ pub fn check_trait<S: Attack>(c: &Case, ctx: &mut CaseCtx) -> Result<(), Failure
             ctx.derived = Some(desc);
             let r = present(f.claimed.clone(), &f.proof);
             expect_reject(ctx, P, S::NAME, entry, "prover_built_forgery", &r, || f.desc.clone())
+        }
+        6 => {
+            // One proof of an honest batch is mutated and the claim of its label falsified; every other
+            // label keeps its honest proof and true values (so a batch verifier that lets a later label's
+            // verdict overwrite an earlier one, or stops looking after the first label, is exposed).
+            ctx.label("mode:mutation_inside_batch");
+            let qs = sess.query_set();
+            let mut evals = sess.evaluations();
+            let Out::Ok(bp) = sess.batch_open(&qs, &mut sess.sponge(), sess.seeds[1]) else {
+                return Ok(());
+            };
+            if !accepted(&sess.batch_check(sess.verifier_comms(), &qs, &evals, &bp, &mut sess.sponge(), sel)) {
+                ctx.label("honest_batch_not_accepted(C01)");
+                return Ok(());
+            }
+            let mut proofs: Vec<Proof<S>> = bp.into();
+            // groups in the batch verifiers' order (point label)
+            let mut gs: Vec<&crate::session::Group<S::Pt>> = sess.groups.iter().collect();
+            gs.sort_by(|a, b| a.label.cmp(&b.label));
+            if proofs.len() != gs.len() {
+                ctx.label("proof_list_not_one_per_label");
+                return Ok(());
+            }
+            let n = gs.len();
+            let k = if n >= 2 && (sel >> 6) % 4 != 0 { ((sel >> 12) % (n as u64 - 1)) as usize } else { ((sel >> 12) % n as u64) as usize };
+            ctx.label_if(n >= 2 && k + 1 < n, "mutated_label_not_last");
+            let gk = gs[k];
+            let mut ord = gk.polys.clone();
+            ord.sort_by_key(|i| sess.polys[*i].label().clone());
+            let vals: Vec<S::F> = ord.iter().map(|i| sess.true_value(*i, &gk.point)).collect();
+            let m = S::mutate(&sess, &ord, &gk.point, &vals, &proofs[k], &c.ops);
+            if m.guard_log2.map(|lp| lp > -40.0).unwrap_or(false) {
+                ctx.label("toy_soundness_not_asserted");
+                return Ok(());
+            }
+            let mut claimed = m.values.clone().unwrap_or_else(|| vals.clone());
+            if claimed == vals {
+                let pos = m.focus.filter(|f| *f < ord.len()).unwrap_or(((sel >> 8) % ord.len() as u64) as usize);
+                claimed[pos] += delta::<S::F>(sel >> 16);
+            }
+            for (i, v) in ord.iter().zip(&claimed) {
+                evals.insert((sess.polys[*i].label().clone(), gk.point.clone()), *v);
+            }
+            // a point value shared by two labels shares its evaluation entries: the other label's claim
+            // became false as well, which only makes rejection more certain
+            proofs[k] = m.proof.clone();
+            desc["mutations"] = json!(m.desc);
+            desc["mutated_label"] = json!(gk.label);
+            ctx.nontrivial_if(n >= 2);
+            ctx.derived = Some(desc);
+            let bp2: BatchProof<S> = proofs.into();
+            let r = sess.batch_check(sess.verifier_comms(), &qs, &evals, &bp2, &mut sess.sponge(), sel);
+            ctx.label_if(matches!(r, Out::Ok(false)), "rejected_by_algebraic_check");
+            expect_reject(ctx, P, S::NAME, "batch_check", "mutated_proof_inside_batch", &r, || format!("label {} of {n}: {}", gk.label, m.desc.join("; ")))
         }
         _ => {
             ctx.label("mode:batch_list_shape");
